@@ -34,9 +34,14 @@ func (*DeflateCompress) Compress(data []byte) ([]byte, error) {
 		log.Error(err)
 		return nil, err
 	}
-	defer fw.Close()
-	fw.Write(data)
-	fw.Flush()
+	if _, err = fw.Write(data); err != nil {
+		fw.Close()
+		return nil, err
+	}
+	// Close writes the final block: the bytes must be taken after it, not before a deferred Close
+	if err = fw.Close(); err != nil {
+		return nil, err
+	}
 	return buf.Bytes(), nil
 }
 
